@@ -28,6 +28,7 @@
  */
 
 #include <utility>
+#include <algorithm>
 #include <cstdio>
 #include <tins/dns.h>
 #include <tins/ip_address.h>
@@ -695,13 +696,25 @@ PDU::serialization_type DNS::soa_record::serialize() const {
     return output;
 }
 
+// Reads a null terminated encoded domain name, making sure the terminator
+// lies inside the buffer.
+static string read_encoded_domain_name(InputMemoryStream& stream) {
+    const uint8_t* start = stream.pointer();
+    const uint8_t* end = start + stream.size();
+    const uint8_t* terminator = std::find(start, end, 0);
+    if (terminator == end) {
+        throw malformed_packet();
+    }
+    string output(start, terminator);
+    stream.skip(output.size() + 1);
+    return output;
+}
+
 void DNS::soa_record::init(const uint8_t* buffer, uint32_t total_sz) {
     InputMemoryStream stream(buffer, total_sz);
-    string domain = (const char*)stream.pointer();
+    string domain = read_encoded_domain_name(stream);
     mname_ = DNS::decode_domain_name(domain);
-    stream.skip(domain.size() + 1);
-    domain = (const char*)stream.pointer();
-    stream.skip(domain.size() + 1);
+    domain = read_encoded_domain_name(stream);
     rname_ = DNS::decode_domain_name(domain);
     serial_ = stream.read_be<uint32_t>();
     refresh_ = stream.read_be<uint32_t>();
